@@ -4,7 +4,17 @@
 def run(ctx):
     t = ctx.tier
     ctx.mc("MC_C01", "MC_C01_%s.cfg" % t)
-    cases = ctx.gen("Gen_C01", "Gen_C01_%s.cfg" % t)
+    import itertools
+    raw = ctx.gen("Gen_C01", "Gen_C01_%s.cfg" % t)
+    cases = []
+    for c in raw:      # expand the compactly written products
+        if c["kind"] == "pairs_over":
+            cases += [{"kind": "pair", "a": a, "b": b} for a in c["names"] for b in c["names"]]
+        elif c["kind"] == "strings_over":
+            for k in range(1, c["maxlen"] + 1):
+                cases += [{"kind": "str", "s": list(s)} for s in itertools.product(c["alphabet"], repeat=k)]
+        else:
+            cases.append(c)
     # beyond the exhaustive bound: seeded random long names (domain extension only; same oracle)
     n_rand = 2000 if ctx.quick() else 20000
     for _ in range(n_rand):
